@@ -8,12 +8,12 @@ package storage
 // BeginTX snapshots the token tables, Rollback restores the snapshot, Commit keeps the state. Each may fail
 // (then nothing changes and a fault is counted). One level of nesting is modelled.
 
-//@ spec func snaps_unchanged() bool = snap_code_active == old(snap_code_active) && snap_acc_exists == old(snap_acc_exists) && snap_ref_exists == old(snap_ref_exists) && snap_ref_active == old(snap_ref_active)
+//@ spec func snaps_unchanged() bool = snap_code_active == old(snap_code_active) && snap_acc_exists == old(snap_acc_exists) && snap_ref_exists == old(snap_ref_exists) && snap_ref_active == old(snap_ref_active) && snap_dev_live == old(snap_dev_live)
 //@ spec func tx_unchanged() bool = tx_open == old(tx_open) && tx_begun == old(tx_begun) && tx_committed == old(tx_committed) && tx_rolledback == old(tx_rolledback) && tx_commit_calls == old(tx_commit_calls) && tx_rollback_calls == old(tx_rollback_calls)
 
 //@ interface Transactional.BeginTX
-//@   modifies tx_open, tx_begun, snap_code_active, snap_acc_exists, snap_ref_exists, snap_ref_active, faults
-//@   ensures err == nil ==> tx_open == old(tx_open) + 1 && tx_begun == old(tx_begun) + 1 && snap_code_active == code_active && snap_acc_exists == acc_exists && snap_ref_exists == ref_exists && snap_ref_active == ref_active && faults == old(faults)
+//@   modifies tx_open, tx_begun, snap_code_active, snap_acc_exists, snap_ref_exists, snap_ref_active, snap_dev_live, faults
+//@   ensures err == nil ==> tx_open == old(tx_open) + 1 && tx_begun == old(tx_begun) + 1 && snap_code_active == code_active && snap_acc_exists == acc_exists && snap_ref_exists == ref_exists && snap_ref_active == ref_active && snap_dev_live == dev_live && faults == old(faults)
 //@   ensures err != nil ==> tx_open == old(tx_open) && tx_begun == old(tx_begun) && snaps_unchanged() && faults == old(faults) + 1
 
 //@ interface Transactional.Commit
@@ -23,15 +23,15 @@ package storage
 //@   ensures err != nil ==> tx_open == old(tx_open) && tx_committed == old(tx_committed) && faults == old(faults) + 1
 
 //@ interface Transactional.Rollback
-//@   modifies tx_open, tx_rolledback, tx_rollback_calls, code_active, acc_exists, ref_exists, ref_active, faults
+//@   modifies tx_open, tx_rolledback, tx_rollback_calls, code_active, acc_exists, ref_exists, ref_active, dev_live, faults
 //@   ensures tx_rollback_calls == old(tx_rollback_calls) + 1
-//@   ensures err == nil ==> tx_open == old(tx_open) - 1 && tx_rolledback == old(tx_rolledback) + 1 && code_active == snap_code_active && acc_exists == snap_acc_exists && ref_exists == snap_ref_exists && ref_active == snap_ref_active && faults == old(faults)
-//@   ensures err != nil ==> tx_open == old(tx_open) && tx_rolledback == old(tx_rolledback) && code_active == old(code_active) && acc_exists == old(acc_exists) && ref_exists == old(ref_exists) && ref_active == old(ref_active) && faults == old(faults) + 1
+//@   ensures err == nil ==> tx_open == old(tx_open) - 1 && tx_rolledback == old(tx_rolledback) + 1 && code_active == snap_code_active && acc_exists == snap_acc_exists && ref_exists == snap_ref_exists && ref_active == snap_ref_active && dev_live == snap_dev_live && faults == old(faults)
+//@   ensures err != nil ==> tx_open == old(tx_open) && tx_rolledback == old(tx_rolledback) && code_active == old(code_active) && acc_exists == old(acc_exists) && ref_exists == old(ref_exists) && ref_active == old(ref_active) && dev_live == old(dev_live) && faults == old(faults) + 1
 
 //@ func MaybeBeginTx
-//@   modifies tx_open, tx_begun, snap_code_active, snap_acc_exists, snap_ref_exists, snap_ref_active, faults
+//@   modifies tx_open, tx_begun, snap_code_active, snap_acc_exists, snap_ref_exists, snap_ref_active, snap_dev_live, faults
 //@   ensures [C18.maybe-begin] !implements(storage, Transactional) ==> err == nil && result0 == ctx && tx_unchanged() && snaps_unchanged() && faults == old(faults)
-//@   ensures [C18.maybe-begin] implements(storage, Transactional) && err == nil ==> tx_open == old(tx_open) + 1 && tx_begun == old(tx_begun) + 1 && snap_code_active == code_active && snap_acc_exists == acc_exists && snap_ref_exists == ref_exists && snap_ref_active == ref_active && faults == old(faults)
+//@   ensures [C18.maybe-begin] implements(storage, Transactional) && err == nil ==> tx_open == old(tx_open) + 1 && tx_begun == old(tx_begun) + 1 && snap_code_active == code_active && snap_acc_exists == acc_exists && snap_ref_exists == ref_exists && snap_ref_active == ref_active && snap_dev_live == dev_live && faults == old(faults)
 //@   ensures [C18.maybe-begin] implements(storage, Transactional) && err != nil ==> tx_unchanged() && snaps_unchanged() && faults == old(faults) + 1
 
 //@ func MaybeCommitTx
@@ -42,8 +42,8 @@ package storage
 //@   ensures [C18.maybe-commit] implements(storage, Transactional) && err != nil ==> tx_open == old(tx_open) && tx_committed == old(tx_committed) && faults == old(faults) + 1
 
 //@ func MaybeRollbackTx
-//@   modifies tx_open, tx_rolledback, tx_rollback_calls, code_active, acc_exists, ref_exists, ref_active, faults
+//@   modifies tx_open, tx_rolledback, tx_rollback_calls, code_active, acc_exists, ref_exists, ref_active, dev_live, faults
 //@   ensures [C18.maybe-rollback] implements(storage, Transactional) ==> tx_rollback_calls == old(tx_rollback_calls) + 1 && tx_commit_calls == old(tx_commit_calls) && tx_begun == old(tx_begun) && tx_committed == old(tx_committed)
-//@   ensures [C18.maybe-rollback] !implements(storage, Transactional) ==> err == nil && tx_unchanged() && code_active == old(code_active) && acc_exists == old(acc_exists) && ref_exists == old(ref_exists) && ref_active == old(ref_active) && faults == old(faults)
-//@   ensures [C18.maybe-rollback] implements(storage, Transactional) && err == nil ==> tx_open == old(tx_open) - 1 && tx_rolledback == old(tx_rolledback) + 1 && code_active == snap_code_active && acc_exists == snap_acc_exists && ref_exists == snap_ref_exists && ref_active == snap_ref_active && faults == old(faults)
-//@   ensures [C18.maybe-rollback] implements(storage, Transactional) && err != nil ==> tx_open == old(tx_open) && tx_rolledback == old(tx_rolledback) && code_active == old(code_active) && acc_exists == old(acc_exists) && ref_exists == old(ref_exists) && ref_active == old(ref_active) && faults == old(faults) + 1
+//@   ensures [C18.maybe-rollback] !implements(storage, Transactional) ==> err == nil && tx_unchanged() && code_active == old(code_active) && acc_exists == old(acc_exists) && ref_exists == old(ref_exists) && ref_active == old(ref_active) && dev_live == old(dev_live) && faults == old(faults)
+//@   ensures [C18.maybe-rollback] implements(storage, Transactional) && err == nil ==> tx_open == old(tx_open) - 1 && tx_rolledback == old(tx_rolledback) + 1 && code_active == snap_code_active && acc_exists == snap_acc_exists && ref_exists == snap_ref_exists && ref_active == snap_ref_active && dev_live == snap_dev_live && faults == old(faults)
+//@   ensures [C18.maybe-rollback] implements(storage, Transactional) && err != nil ==> tx_open == old(tx_open) && tx_rolledback == old(tx_rolledback) && code_active == old(code_active) && acc_exists == old(acc_exists) && ref_exists == old(ref_exists) && ref_active == old(ref_active) && dev_live == old(dev_live) && faults == old(faults) + 1
